@@ -28,13 +28,21 @@ M02_Text(x, ev, pos) ==
      ev[pos].tx = x.secs[ev[pos].sec].rows[ev[pos].r]
 \* C08 per section: every row ends at the table width; data rows divide it equally (equal relative widths)
 M08_RightEdge(x, ev, pos) == pos <= Len(ev) => (Len(ev[pos].cx) > 0 /\ ev[pos].cx[Len(ev[pos].cx)] = x.W)
+\* secs[s].relw = relative widths of the displayed columns (integers)
+RECURSIVE SumTo(_, _)
+SumTo(w, j) == IF j = 0 THEN 0 ELSE SumTo(w, j - 1) + w[j]
 M08_Proportional(x, ev, pos) ==
   (pos <= Len(ev) /\ ev[pos].k = "data" /\ ev[pos].sec \in 1..Len(x.secs)) =>
-     LET m == x.secs[ev[pos].sec].m IN
-       /\ Len(ev[pos].cx) = m
-       /\ \A j \in 1..m : Abs(ev[pos].cx[j] * m - x.W * j) <= m
+     LET m == x.secs[ev[pos].sec].m
+         w == x.secs[ev[pos].sec].relw
+         tot == SumTo(w, m)
+     IN /\ Len(ev[pos].cx) = m
+        /\ \A j \in 1..m : Abs(ev[pos].cx[j] * tot - x.W * SumTo(w, j)) <= tot
+\* a header row has the cell boundaries of the data rows of its section (spanning heading rows may lie between)
+NextDataAfter(ev, pos) == LET S == {j \in DataIdx(ev) : j > pos} IN IF S = {} THEN 0 ELSE CHOOSE j \in S : \A y \in S : j <= y
 M08_HeaderAligned(x, ev, pos) ==
-  (pos <= Len(ev) /\ ev[pos].k = "colhdr" /\ pos < Len(ev) /\ ev[pos + 1].k = "data" /\ ev[pos + 1].sec = ev[pos].sec) => ev[pos].cx = ev[pos + 1].cx
+  (pos <= Len(ev) /\ ev[pos].k = "colhdr") =>
+     LET q == NextDataAfter(ev, pos) IN (q # 0 /\ ev[q].sec = ev[pos].sec) => ev[pos].cx = ev[q].cx
 \* C07 first/last clauses
 AllEq(s, v) == \A j \in 1..Len(s) : s[j] = v
 M07_DocTop(x, ev, pos) == (pos = 1 /\ pos <= Len(ev)) => AllEq(ev[1].top, x.pagefirst)
